@@ -70,7 +70,10 @@ pub fn parse_conditional(
         let first_body = lines[first_body_line_index].content.trim();
         if first_body.starts_with('-')
             && !first_body.starts_with("->")
-            && !first_body.starts_with("- else:")
+            && !first_body
+                .trim_start_matches('-')
+                .trim_start()
+                .starts_with("else:")
         {
             // Check that the branch looks like "- case_expr: body" (has a colon after stripping -)
             let branch_content = first_body.trim_start_matches('-').trim_start();
@@ -174,7 +177,12 @@ pub fn parse_conditional(
         }
 
         // `- else: inline_content` on a single line
-        if let Some(else_content) = trimmed.strip_prefix("- else:") {
+        // (the blank between the dash and `else:` is optional: `-else:`)
+        if let Some(else_content) = trimmed
+            .strip_prefix('-')
+            .map(str::trim_start)
+            .and_then(|rest| rest.strip_prefix("else:"))
+        {
             in_else = true;
             *line_index += 1;
             let rest = else_content.trim();
